@@ -33,6 +33,10 @@ struct NLink {
     next: NLink,
 }
 
+// the same chain with unnamed fields
+#[compound]
+struct TLink(LTerm, TLink);
+
 const NONE_MARK: &str = "__harness_none__";
 
 fn opt_field(o: &T) -> Option<Pair<U, E>> {
@@ -112,6 +116,12 @@ pub fn build_comp(tag: &str, mut args: Vec<T>) -> T {
             let n = nx();
             // any term may sit in the typed position (the typed wrapper is a view of a term)
             let p: NLink<U, E> = Downcast::into_sub(NLink_compound::_InnerNLink { label: a, next: NLink { inner: n } });
+            Upcast::into_super(p)
+        }
+        "TLink" => {
+            let a = nx();
+            let n = nx();
+            let p: TLink<U, E> = Downcast::into_sub(TLink_compound::_InnerTLink(a, TLink { inner: n }));
             Upcast::into_super(p)
         }
         "WOpt" => {
